@@ -134,7 +134,13 @@ func (r *Receiver) SegmentHandlerFunc(w http.ResponseWriter, req *http.Request) 
 
 	defaultDur := mpd.Ptr(uint32(0))
 
-	chunkParserCallback := func(cd chunkparser.ChunkData) error {
+	chunkParserCallback := func(cd chunkparser.ChunkData) (err error) {
+		// The MP4 library panics on some malformed data, also after decoding (e.g. sizes of missing boxes).
+		defer func() {
+			if r := recover(); r != nil {
+				err = fmt.Errorf("malformed MP4 data: %v", r)
+			}
+		}()
 		// Set ofh to the write file output and then write data
 		data := cd.Data // Used so that you can overwrite cd.Data when needed
 		if cd.IsInitSegment {
